@@ -5,5 +5,6 @@ CONSTANTS
   MaxOps = 3
   MaxPick = 2
   Layouts = {"aux-first", "aux-last"}
-INVARIANTS RTypeOK ItfTheorems SubsConsistent GetSeesLastSet GetDenotesLastSet DeliveredIffSubscribed RefsDenoteSent ExecutedOnce ImplHoldsServiceIds ClientRefsResolvable ForwardersSound HandlesFresh Export
+  Devs = {}
+INVARIANTS RTypeOK ItfTheorems SubsConsistent GetSeesLastSet GetDenotesLastSet DeliveredIffSubscribed RefsDenoteSent ExecutedOnce RightOverloadRuns ImplHoldsServiceIds ClientRefsResolvable ForwardersSound HandlesFresh Export
 CHECK_DEADLOCK FALSE
